@@ -60,6 +60,7 @@ type msgWriter struct {
 	multiPartWriter [4]*multipart.Writer
 	partWriter      io.Writer
 	rawPartHeaders  bool
+	userBoundary    bool
 	writer          io.Writer
 }
 
@@ -311,10 +312,16 @@ func (mw *msgWriter) getMultipartBoundary(msg *Msg, mimetype MIMEType) string {
 	// A user provided boundary can only be used for the outermost multipart. Nested multiparts
 	// need a boundary of their own, otherwise the delimiters of the layers cannot be told apart.
 	if msg.boundary != "" && mw.depth == 0 {
+		mw.userBoundary = true
 		return msg.boundary
 	}
-	if msg.multiPartBoundary[mimetype] != "" {
-		return msg.multiPartBoundary[mimetype]
+	// The boundary remembered from an earlier render is used again. One exception: a multipart
+	// that was the outermost one in an earlier render (and therefore remembers the user provided
+	// boundary) may be a nested one now, i. e. because an attachment has been added since. If the
+	// outermost multipart of this render has taken the user provided boundary, the nested one needs
+	// a new boundary of its own.
+	if cached := msg.multiPartBoundary[mimetype]; cached != "" && !(mw.userBoundary && cached == msg.boundary) {
+		return cached
 	}
 	return ""
 }
